@@ -9,6 +9,7 @@
 (*          | <<"match", expr, cases, default>>    cases = Seq(<<const, stmts>>) *)
 (*   expr ::= <<"a">> | <<"b">> | <<"s">> | <<"t">> | <<"k">> | <<"c", n>>       *)
 (*          | <<"un", op, expr>> | <<"bin", op, expr, expr>> | <<"tern", cond, expr, expr>> *)
+(*          | <<"val", cond>>      a comparison or its negation in value position *)
 (*   cond ::= <<"cmp", op, expr, expr>> | <<"and", cond, cond>> | <<"or", cond, cond>> *)
 (*          | <<"not", cond>> | <<"truth", expr>>                                *)
 (* Programs are drawn at random (RandomElement) so that one TLC run yields a      *)
@@ -31,7 +32,10 @@ RE(d, L) ==
     ELSE IF c <= 8 THEN <<"bin", RandomElement(BinOps), RE(d - 1, L), RE(d - 1, L)>>
     ELSE IF c = 9 THEN <<"un", RandomElement(UnOps), RE(d - 1, L)>>
     ELSE IF UseTernary THEN <<"tern", RC(d - 1, L), RE(d - 1, L), RE(d - 1, L)>>
-    ELSE <<"bin", "&", RE(d - 1, L), <<"c", 200>>>>
+    ELSE IF RandomElement(1..2) = 1 THEN <<"bin", "&", RE(d - 1, L), <<"c", 200>>>>
+    \* a comparison (or its negation) used as a value: True / False become 1 / 0 on both sides
+    ELSE IF RandomElement(1..3) = 1 THEN <<"val", <<"not", <<"cmp", RandomElement(CmpOps), RE(d - 1, L), RE(0, L)>>>>>>
+    ELSE <<"val", <<"cmp", RandomElement(CmpOps), RE(d - 1, L), RE(0, L)>>>>
 RC(d, L) ==
     LET c == RandomElement(1..10) IN
     IF d = 0 \/ c <= 5 THEN <<"cmp", RandomElement(CmpOps), RE(d, L), RE(0, L)>>
@@ -58,6 +62,8 @@ RProg(i) == <<<<"assign", "t", RE(2, Leaves0)>>>> \o RBlock(2, RandomElement(1..
 
 \* exhaustive: r := e for every expression of depth <= 1 (no local)
 E1 == Leaves0 \cup {<<"bin", op, x, y>> : op \in BinOps, x \in Leaves0, y \in Leaves0} \cup {<<"un", op, x>> : op \in UnOps, x \in Leaves0}
+      \cup {<<"val", <<"cmp", op, x, y>>>> : op \in CmpOps, x \in {<<"a">>, <<"s">>, <<"c", 2>>}, y \in {<<"b">>, <<"k">>, <<"c", 1>>}}
+      \cup {<<"val", <<"not", <<"cmp", op, <<"a">>, <<"b">>>>>>>> : op \in CmpOps}
 
 \* precedence / associativity shapes: r := x op1 (y op2 z)  and  r := (x op1 y) op2 z  for every operator pair
 Nest == {<<"bin", o1, <<"a">>, <<"bin", o2, <<"b">>, <<"c", 2>>>>>> : o1 \in BinOps, o2 \in BinOps}
